@@ -272,6 +272,7 @@ class Comparer:
                 return s["k"] == "struct" and self.pair(a[1], s["name"])
             if s["k"] != "table":
                 return False
+            e_ok = self.elem_ok(a[1], s["elem"])      # always explore the element type, also when the length is wrong
             try:
                 sp_n = spec_poly(s["n"])
                 if any(v not in spos for v in sp_n.vars()):
@@ -279,7 +280,7 @@ class Comparer:
                 sp_n = sp_n.rename(lambda v: spos[v])
             except Unrecognised:
                 return False
-            return sp_n == a[2] and self.elem_ok(a[1], s["elem"])
+            return sp_n == a[2] and e_ok
 
         if tag_is_first_atom:
             R.inst(rid, "layout:%s:tag-field" % where, atom_ok(0), sp=self.sp(m),
@@ -352,6 +353,10 @@ class Comparer:
                        detail="JVMS tag table of %s" % uname)
                 if pat["kind"] == "lit":
                     seen[pat["v"]] = v["name"]
+                if case is None or not self.name_ok(v["name"], case["name"]):
+                    # tag mismatch already reported: compare the payload with the JVMS item of the same name
+                    byname = [c for c in cases.values() if self.name_ok(v["name"], c["name"])]
+                    case = byname[0] if byname else None
                 if case is not None:
                     self.compare_items(T, m, v["items"], case["items"], v["name"], tag_w, [m["tag_name"]])
             for k, cse in sorted(cases.items()):
